@@ -192,6 +192,16 @@ VARIANTS = [
     {"name": "P R4 bridge tagging re-reads the key in the guard", "file": PROXY, "expect": "silent",
      "old": "        elif not cap_data and not flow.metadata.get(\"from_browser\"):\n",
      "new": "        elif not flow.metadata.get(\"cap_data_ser\") and not flow.metadata.get(\"from_browser\"):\n"},
+    {"name": "R4 session weakref dereferenced without a liveness check", "file": CAPS, "expect": "C15.R4",
+     "old": "if self.session and self.session() else None", "new": "if self.session else None"},
+    {"name": "P R4 liveness tested with `is not None`", "file": CAPS, "expect": "silent",
+     "old": "if self.session and self.session() else None", "new": "if self.session and self.session() is not None else None"},
+    {"name": "R4 pre-hook request URL written back after the addon hooks", "file": EVM, "expect": "C15.R4",
+     "old": "        AddonManager.handle_http_request(flow)\n",
+     "new": "        AddonManager.handle_http_request(flow)\n        if flow.request_injected:\n            flow.request.url = url\n"},
+    {"name": "P R4 pre-hook request URL only logged after the addon hooks", "file": EVM, "expect": "silent",
+     "old": "        AddonManager.handle_http_request(flow)\n",
+     "new": "        AddonManager.handle_http_request(flow)\n        LOG.debug(\"addons saw %s\", url)\n"},
     {"name": "P R4 positional construction", "file": CAPS, "expect": "silent",
      "old": "            cap_name=self.cap_name,\n            region_addr=", "new": "            self.cap_name,\n            region_addr="},
     {"name": "P R4 `not in` form of a default", "file": FLOW, "expect": "silent",
